@@ -222,6 +222,11 @@ def _ops():
     # plural forms with one good and one bad entry: must change nothing
     ops.append(("add_parameters", {"parameters": {"n4": 1.0, "k": 2.0}}))
     ops.append(("add_variables", {"variables": {"n4": 1.0, "time": 2.0}}))
+    # ... where the bad entry is a name that a component of ANOTHER kind holds (one name space)
+    ops.append(("add_variables", {"variables": {"n5": 1.0, "k": 2.0}}))
+    ops.append(("add_parameters", {"parameters": {"n5": 1.0, "x": 2.0}}))
+    ops.append(("add_variables", {"variables": {"n5": 1.0, "v1": 2.0}}))
+    ops.append(("add_parameters", {"parameters": {"n5": 1.0, "dp": 2.0}}))
     ops.append(("update_parameters", {"parameters": {"k": 3.0, "zz": 1.0}}))
     ops.append(("update_variables", {"variables": {"x": 3.0, "zz": 1.0}}))
     ops.append(("remove_parameters", {"names": ["k", "zz"]}))
